@@ -417,6 +417,7 @@ class Arr:
             t['prov'] = dict(self.tags['prov'], transposed=not self.tags['prov'].get('transposed', False))
         if 'const' in self.tags and self.tags['const'] in ('eye', 'zeros', 'ones'):
             t['const'] = self.tags['const']
+        t['perm'] = tuple(perm)
         return self.view([self.shape[p] for p in perm], [self.legs[p] for p in perm], t, origin='transpose')
 
     def reshape(self, *shape, **kw):
@@ -673,6 +674,7 @@ def reshape(a, shape):
     if a.tags.get('const') == 'eye':
         tags['const'] = 'eye-reshaped'
         tags['eye_legs'] = a.legs
+    tags['is_reshape'] = True
     r = a.view(shape, out, tags)
     return r
 
@@ -948,7 +950,12 @@ def getitem(a, idx):
                 sel.append(('range', start, stop))
         elif isinstance(x, (Arr,)) and x.ndim >= 1:
             if x.dt == 'bool':
-                k = CTX.atoms.new('k', free=True, upper=[n], origin='boolean mask')
+                # the number of True entries of one mask object is one unknown, however often the mask is applied
+                memo = CTX.__dict__.setdefault('mask_counts', {})
+                if id(x) not in memo:
+                    memo[id(x)] = CTX.atoms.new('k', free=True, upper=[n], origin='boolean mask')
+                    CTX.keep.append(x)
+                k = memo[id(x)]
             else:
                 k = x.shape[0] if x.ndim == 1 else None
                 if k is None:
@@ -1001,26 +1008,63 @@ def getitem(a, idx):
     return r
 
 
+def index_at(x, t):
+    """element t (int or symbolic loop index) of an index vector"""
+    aff = affine_index(x)
+    if aff is not None:
+        return aff[0] + t if not isinstance(t, SymIdx) else (t + aff[0] if not sz_eq(aff[0], 0) else t)
+    if isinstance(x, IntVec):
+        if isinstance(t, int):
+            return x[t]
+        raise AnalysisError('a concrete, non-contiguous index vector indexed by a symbolic position has no model')
+    return getitem(x, (t,))
+
+
+def point_store(a, idx, vecs, v, inplace):
+    """point-wise (advanced-index) store / unbuffered in-place operation, executed as the loop over the points"""
+    lens = [x.shape[0] for _, x in vecs]
+    n = lens[0]
+    for m_ in lens[1:]:
+        if is_one(n):
+            n = m_
+        elif not (is_one(m_) or sz_eq(m_, n)):
+            raise Raised('IndexError', f'shape mismatch: indexing arrays could not be broadcast together with shapes ({n},) ({m_},)')
+    nslices = sum(1 for y in idx if isinstance(y, slice))
+    vpos = [p for p, _ in vecs]
+    adjacent = all(q == p + 1 for p, q in zip(vpos, vpos[1:])) and not any(not isinstance(y, slice) and y is not None and pos not in vpos for pos, y in enumerate(idx))
+    varies = isinstance(v, Arr) and v.ndim > nslices
+    if varies and (v.ndim != nslices + 1 or (adjacent and any(isinstance(y, slice) for y in idx[:vpos[0]]))):
+        raise AnalysisError('point-wise store of a value whose point axis is not the leading one has no model')
+    if varies and not (sz_eq(v.shape[0], n) or is_one(v.shape[0])):
+        raise value_error(f'shape mismatch: value array of shape {v.shape} could not be broadcast to the {n} selected points')
+
+    def value_at(t):
+        if not varies:
+            return v
+        return getitem(v, (0,)) if is_one(v.shape[0]) else getitem(v, (t,))
+
+    def one(t):
+        pt = tuple(index_at(dict(vecs)[pos], t) if pos in vpos else x for pos, x in enumerate(idx))
+        if inplace is None:
+            setitem(a, pt, value_at(t))
+        else:
+            view = getitem(a, pt)
+            view._inplace(value_at(t), inplace)
+    if isinstance(n, int):
+        for t in range(n):
+            one(t)
+    else:
+        one(SymIdx(0, n))
+
+
 def setitem(a, idx, v):
     if isinstance(v, Arr) and v.buf is a.buf and v.tags.get('inplace_done'):
         return          # x[sel] op= y : the in-place operation on the view has already been recorded; storing the view back is a no-op
     idx = expand_index(a, idx)
     vecs = [(pos, x) for pos, x in enumerate(idx) if (isinstance(x, Arr) and x.ndim >= 1) or isinstance(x, list)]
-    if len(vecs) >= 2 and all(affine_index(x) is not None for _, x in vecs):
-        # a[c1 + arange(n), ..., c2 + arange(n)] = v  is the loop  for j in range(n): a[c1 + j, ..., c2 + j] = v   (v must not vary with j)
-        aff = [affine_index(x) for _, x in vecs]
-        n = aff[0][1]
-        if any(not sz_eq(m, n) for _, m in aff):
-            raise Raised('IndexError', 'shape mismatch: indexing arrays could not be broadcast together')
-        rest = [a.shape[k_] for k_, x in enumerate([y for y in idx if y is not None]) if isinstance(x, slice)]
-        if isinstance(v, Arr) and v.ndim > sum(1 for y in idx if isinstance(y, slice)):
-            raise AnalysisError('point-wise store of a value that varies along the index vectors has no model')
-        if isinstance(n, int):
-            for t in range(n):
-                setitem(a, tuple((aff[[p for p, _ in vecs].index(pos)][0] + t) if pos in [p for p, _ in vecs] else x for pos, x in enumerate(idx)), v)
-        else:
-            j = SymIdx(0, n)
-            setitem(a, tuple((j + aff[[p for p, _ in vecs].index(pos)][0]) if pos in [p for p, _ in vecs] else x for pos, x in enumerate(idx)), v)
+    if len(vecs) >= 2 and all((isinstance(x, Arr) and x.ndim == 1) or isinstance(x, IntVec) for _, x in vecs):
+        # a[I1, ..., I2] = v with index vectors of one length n is the loop  for j in range(n): a[I1[j], ..., I2[j]] = v[j]
+        point_store(a, idx, vecs, v, None)
         return
     sel_shape, sel, ax = [], [], 0
     adv_pos, adv_axes = [], []
@@ -1268,7 +1312,7 @@ def np_array(x, dtype=None, ndmin=0, **k):
         hook = getattr(CTX, 'array_leg_hook', None)
         lead = hook([item], x.n) if hook else None
         r = Arr((x.n,) + tuple(item.shape), [lead if lead is not None else (() if is_one(x.n) else (opaque_leg(x.n, 'array'),))] + list(item.legs), item.dt, None,
-                {'elements': [item], 'symbolic_length': x.n}, 'array')
+                {'elements': [item], 'symbolic_length': x.n, 'sym_index': getattr(x, 'index', None)}, 'array')
     elif isinstance(x, (list, tuple)):
         if len(x) == 0:
             r = Arr((0,), [(opaque_leg(0),)], 'real', None)
